@@ -408,7 +408,14 @@ class Verifier:
         return out
 
     def install_hooks(self, I, c):
-        I.hooks["container_write"] = lambda ref: I.run.written.add(I.run.base_oid(ref.oid))
+        def on_container_write(ref):
+            I.run.written.add(I.run.base_oid(ref.oid))
+            shared = getattr(I.run, "class_consts", {}).get(I.run.base_oid(ref.oid))
+            if shared is not None and not I.pure:
+                I.ctx.oblige(I, "always", f"class-level {shared} is not written through an instance", z3.BoolVal(False),
+                             f"{shared} is shared by all instances: this write changes the behaviour of every other instance", False,
+                             text=f"the class-level table {shared} is never mutated")
+        I.hooks["container_write"] = on_container_write
         owned = c.locks.get("owned")
         if owned:
             # ownership clause: the listed fields of `self` are only touched while the lock is held
